@@ -118,15 +118,15 @@ let () =
   iter_lines (fun line ->
       match split_on '\t' line with
       | ["R"; id; codec; sch; samplehex; hdrs; obs] ->
-        let r = protect_ranges (isvideo_of codec) (mk_hdr hdrs) (scheme_of sch) (bytes_of_hex samplehex) in
+        let r = protect_ranges_r (isvideo_of codec) (mk_hdr hdrs) (scheme_of sch) (bytes_of_hex samplehex) in
         check id "ranges" (res_string string_of_ranges r) obs
       | ["Q"; id; spss; ppss; sch; samplehex; obs] ->
         (* AVC ranges with the slice-header size computed by the C15 Gallina parsers from the avcC parameter sets *)
-        let r = protect_ranges avc_is_video (avc_hdr spss ppss) (scheme_of sch) (bytes_of_hex samplehex) in
+        let r = protect_ranges_r avc_is_video (avc_hdr spss ppss) (scheme_of sch) (bytes_of_hex samplehex) in
         check id "ranges(C15 header size)" (res_string string_of_ranges r) obs
       | ["H"; id; spss; ppss; sch; samplehex; obs] ->
         (* HEVC ranges with the slice segment header size computed by the C15 Gallina HEVC parsers from the hvcC parameter sets *)
-        let r = protect_ranges hevc_is_video (hevc_hdr spss ppss) (scheme_of sch) (bytes_of_hex samplehex) in
+        let r = protect_ranges_r hevc_is_video (hevc_hdr spss ppss) (scheme_of sch) (bytes_of_hex samplehex) in
         check id "ranges(C15 HEVC header size)" (res_string string_of_ranges r) obs
       | ["A"; id; rng; c; p; obs] ->
         let r = append_protect_range (ranges_of_string rng) (n_of_hex c) (n_of_hex p) in
@@ -151,7 +151,7 @@ let () =
         (* EncryptFragment: codec a = AVC, h = HEVC, u = audio *)
         let protf =
           if codec = "u" then audio_protect_ranges
-          else protect_ranges (isvideo_of codec) (mk_hdr hdrs) (scheme_of sch) in
+          else protect_ranges_r (isvideo_of codec) (mk_hdr hdrs) (scheme_of sch) in
         fragment_case id sch protf key iv cb sb samples before trafc obs
       | ["G"; id; sch; codec; spss; ppss; key; iv; cb; sb; samples; before; trafc; obs] ->
         (* EncryptFragment with getAVCProtFunc / getHEVCProtFunc of the model (maps from the avcC / hvcC NAL units,
